@@ -50,7 +50,8 @@ def gen_actions(rng, allow_raise=True):
         elif k < 0.7:
             acts.append((rng.choice(['writelines', 'writelines', 'writelines-gen']), [rng.choice(TEXTS) for _ in range(rng.randint(0, 3))]))
         elif k < 0.92:
-            acts.append(('input', rng.choice(PROMPTS), rng.random() < 0.7))
+            # input() by its name, or through another name the student's file bound to it when it was first run
+            acts.append((rng.choice(['input', 'input', 'input-alias']), rng.choice(PROMPTS), rng.random() < 0.7))
         else:
             acts.append(('print-file-stdout', rng.choice(TEXTS)))
     if allow_raise and rng.random() < 0.12:
@@ -84,9 +85,9 @@ def actions_to_code(acts, ind=''):
         elif a[0] == 'print-file-stdout':
             lines.append('import sys')
             lines.append('print(%r, file=sys.stdout)' % a[1])
-        elif a[0] == 'input':
+        elif a[0] in ('input', 'input-alias'):
             _, prompt, echo = a
-            lines.append('_v = input(%r)' % prompt if prompt or True else '_v = input()')
+            lines.append(('_v = input(%r)' if a[0] == 'input' else '_v = ask(%r)') % prompt)
             if echo:
                 lines.append("print('read', repr(_v))")
         elif a[0] == 'raise':
@@ -114,7 +115,7 @@ def simulate(acts, queue):
             out.append(''.join(a[1]))
         elif a[0] == 'print-file-stdout':
             out.append(a[1] + '\n')
-        elif a[0] == 'input':
+        elif a[0] in ('input', 'input-alias'):
             _, prompt, echo = a
             out.append(prompt + '\n')            # the statement: prompts are part of what student code wrote
             v = queue.pop(0) if queue else '0'
@@ -140,7 +141,7 @@ def validate_snippet(ctx, acts):
     buf = io.StringIO()
     with contextlib.redirect_stdout(buf):
         try:
-            exec(compile(actions_to_code(acts), 'snippet.py', 'exec'), {'__builtins__': b, '__name__': '__main__'})
+            exec(compile(actions_to_code(acts), 'snippet.py', 'exec'), {'__builtins__': b, '__name__': '__main__', 'ask': fake_input})
         except (ValueError, SystemExit):
             pass
     ctx.count('snippets_validated')
@@ -224,7 +225,7 @@ def gen_history(rng):
 
 
 def student_file(h):
-    parts = []
+    parts = ['ask = input\n']
     for i, acts in enumerate(h['funcs']):
         parts.append('def f%d():\n%s\n    return %d\n' % (i, actions_to_code(acts, '    '), i * 10))
     parts.append(actions_to_code(h['main']))
